@@ -40,44 +40,40 @@ Proof.
   cbn [map]. f_equal. lia.
 Qed.
 
-Ltac fold_test n k i :=
-  match goal with
-  | |- context [?a ++ [?x]] =>
-      change (a ++ [x]) with (a ++ (if true then [x] else []))
-  end.
+Lemma len_of_nat (l : list Z) : py_len l = Z.of_nat (length l).
+Proof. reflexivity. Qed.
 
-Theorem kfold_pattern_idx_tie (n k i : nat) : 0 < k -> k <= n -> i < k ->
-  Gen_C05.kfold_pattern_idx (Z.of_nat n) (Z.of_nat k) (Z.of_nat i)
-  = (map Z.of_nat (kfold_test n k i), map Z.of_nat (kfold_train n k i)).
+Ltac kfold_tie Ht :=
+  cbv zeta; rewrite ?len_of_nat;
+  match goal with |- context [(?a <? ?b)%Z] => destruct (a <? b)%Z end;
+  [|rewrite app_nil_r in Ht]; rewrite Ht;
+  try (match goal with |- context [(Z.of_nat ?k <=? 1)%Z] =>
+         destruct (Z.leb_spec (Z.of_nat k) 1); destruct (Nat.leb_spec k 1); try lia end);
+  rewrite ?py_setdiff1d_arange, ?py_take_of_nat; reflexivity.
+
+(* the handed-out group values of fold i, as the source computes them from the (shuffled) group order *)
+Theorem kfold_pattern_idx_tie (order : list Z) (k i : nat) : 0 < k -> k <= length order -> i < k ->
+  Gen_C05.kfold_pattern_idx order (Z.of_nat k) (Z.of_nat i)
+  = (vals_at order (kfold_test (length order) k i), vals_at order (kfold_train (length order) k i)).
 Proof.
-  intros Hk Hkn Hi. pose proof (test_idx_tie n k i Hk Hkn Hi) as Ht.
-  unfold Gen_C05.kfold_pattern_idx. cbv zeta. unfold kfold_train.
-  destruct (Z.of_nat i <? Z.of_nat n mod Z.of_nat k)%Z;
-    [|rewrite app_nil_r in Ht]; rewrite Ht;
-    (destruct (Z.leb_spec (Z.of_nat k) 1); destruct (Nat.leb_spec k 1); try lia; [reflexivity|]);
-    rewrite py_setdiff1d_arange; reflexivity.
+  intros Hk Hkn Hi. pose proof (test_idx_tie (length order) k i Hk Hkn Hi) as Ht.
+  unfold Gen_C05.kfold_pattern_idx, kfold_train, vals_at. kfold_tie Ht.
 Qed.
 
-Theorem kfold_both_rdm_idx_tie (n k i : nat) : 0 < k -> k <= n -> i < k ->
-  Gen_C05.kfold_both_rdm_idx (Z.of_nat n) (Z.of_nat k) (Z.of_nat i)
-  = (map Z.of_nat (kfold_test n k i), map Z.of_nat (kfold_train n k i)).
+Theorem kfold_both_rdm_idx_tie (order : list Z) (k i : nat) : 0 < k -> k <= length order -> i < k ->
+  Gen_C05.kfold_both_rdm_idx order (Z.of_nat k) (Z.of_nat i)
+  = (vals_at order (kfold_test (length order) k i), vals_at order (kfold_train (length order) k i)).
 Proof.
-  intros Hk Hkn Hi. pose proof (test_idx_tie n k i Hk Hkn Hi) as Ht.
-  unfold Gen_C05.kfold_both_rdm_idx. cbv zeta. unfold kfold_train.
-  destruct (Z.of_nat i <? Z.of_nat n mod Z.of_nat k)%Z;
-    [|rewrite app_nil_r in Ht]; rewrite Ht;
-    (destruct (Z.leb_spec (Z.of_nat k) 1); destruct (Nat.leb_spec k 1); try lia; [reflexivity|]);
-    rewrite py_setdiff1d_arange; reflexivity.
+  intros Hk Hkn Hi. pose proof (test_idx_tie (length order) k i Hk Hkn Hi) as Ht.
+  unfold Gen_C05.kfold_both_rdm_idx, kfold_train, vals_at. kfold_tie Ht.
 Qed.
 
-Theorem kfold_rdm_idx_tie (n k i : nat) : 0 < k -> k <= n -> i < k ->
-  Gen_C05.kfold_rdm_idx (Z.of_nat n) (Z.of_nat k) (Z.of_nat i)
-  = (map Z.of_nat (kfold_test n k i), map Z.of_nat (kfold_train_strict n k i)).
+Theorem kfold_rdm_idx_tie (order : list Z) (k i : nat) : 0 < k -> k <= length order -> i < k ->
+  Gen_C05.kfold_rdm_idx order (Z.of_nat k) (Z.of_nat i)
+  = (vals_at order (kfold_test (length order) k i), vals_at order (kfold_train_strict (length order) k i)).
 Proof.
-  intros Hk Hkn Hi. pose proof (test_idx_tie n k i Hk Hkn Hi) as Ht.
-  unfold Gen_C05.kfold_rdm_idx. cbv zeta. unfold kfold_train_strict.
-  destruct (Z.of_nat i <? Z.of_nat n mod Z.of_nat k)%Z;
-    [|rewrite app_nil_r in Ht]; rewrite Ht; rewrite py_setdiff1d_arange; reflexivity.
+  intros Hk Hkn Hi. pose proof (test_idx_tie (length order) k i Hk Hkn Hi) as Ht.
+  unfold Gen_C05.kfold_rdm_idx, kfold_train_strict, vals_at. kfold_tie Ht.
 Qed.
 
 Theorem of_k_groups_tie (n k : nat) :
@@ -85,76 +81,134 @@ Theorem of_k_groups_tie (n k : nat) :
   Gen_C05.of_k_rdm_groups (Z.of_nat n) (Z.of_nat k) = Z.of_nat (n / k).
 Proof. unfold Gen_C05.of_k_pattern_groups, Gen_C05.of_k_rdm_groups. cbv zeta. rewrite Nat2Z.inj_div. split; reflexivity. Qed.
 
-(* ---- the property, stated for the generated definitions ---- *)
-Definition gen_tests (f : Z -> Z -> Z -> list Z * list Z) (n k : nat) : list (list Z) :=
-  map (fun i => fst (f (Z.of_nat n) (Z.of_nat k) (Z.of_nat i))) (seq 0 k).
+(* ---- sets_random: the first n of the shuffled order are the test side ---- *)
+Lemma map_nth_seq0 (l : list Z) m : m <= length l -> map (fun i => nth i l 0%Z) (seq 0 m) = firstn m l.
+Proof.
+  revert m. induction l as [|x t IH]; intros m Hm.
+  - destruct m; [reflexivity|cbn in Hm; lia].
+  - destruct m as [|m]; [reflexivity|]. cbn [seq map firstn nth]. f_equal.
+    rewrite <- seq_shift, map_map. cbn [nth]. apply IH. cbn in Hm. lia.
+Qed.
+Lemma map_nth_seq_from (l : list Z) a m : a + m <= length l ->
+  map (fun i => nth i l 0%Z) (seq a m) = firstn m (skipn a l).
+Proof.
+  revert l. induction a as [|a IH]; intros l H.
+  - cbn [skipn]. apply map_nth_seq0. lia.
+  - destruct l as [|x t]; [cbn in H; lia|]. cbn [skipn]. rewrite <- seq_shift, map_map. cbn [nth].
+    apply IH. cbn in H. lia.
+Qed.
+Lemma take_prefix (l : list Z) (m : nat) : m <= length l -> py_take l (py_arange 0 (Z.of_nat m)) = firstn m l.
+Proof.
+  intros H. change 0%Z with (Z.of_nat 0). replace (Z.of_nat m) with (Z.of_nat 0 + Z.of_nat m)%Z by lia.
+  rewrite py_arange_nat, py_take_of_nat. apply map_nth_seq0. exact H.
+Qed.
+Lemma take_suffix (l : list Z) (m : nat) : m <= length l ->
+  py_take l (py_arange (Z.of_nat m) (Z.of_nat (length l))) = skipn m l.
+Proof.
+  intros H. replace (Z.of_nat (length l)) with (Z.of_nat m + Z.of_nat (length l - m))%Z by lia.
+  rewrite py_arange_nat, py_take_of_nat, map_nth_seq_from by lia.
+  apply firstn_all2. rewrite skipn_length. lia.
+Qed.
+Lemma take_all (l : list Z) : py_take l (py_arange 0 (Z.of_nat (length l))) = l.
+Proof. rewrite take_prefix by lia. apply firstn_all. Qed.
 
-Lemma gen_tests_eq f n k :
-  (forall i, 0 < k -> k <= n -> i < k -> fst (f (Z.of_nat n) (Z.of_nat k) (Z.of_nat i)) = map Z.of_nat (kfold_test n k i)) ->
-  0 < k -> k <= n -> gen_tests f n k = map (fun i => map Z.of_nat (kfold_test n k i)) (seq 0 k).
+Theorem random_idx_tie (rorder porder : list Z) (n_r n_p : nat) : n_r <= length rorder -> n_p <= length porder ->
+  let f := random_fold rorder porder n_r n_p in
+  (let '(a, b, c, d) := Gen_C05.random_idx rorder porder (Z.of_nat n_r) (Z.of_nat n_p) in
+   (Some a, Some b, Some c, Some d)) = (te_r f, tr_r f, te_p f, tr_p f).
+Proof.
+  intros Hr Hp. unfold Gen_C05.random_idx, random_fold. cbv zeta. cbn [te_r tr_r te_p tr_p]. rewrite !len_of_nat.
+  destruct (Z.eqb_spec (Z.of_nat n_r) 0); destruct (Nat.eqb_spec n_r 0); try lia;
+  destruct (Z.eqb_spec (Z.of_nat n_p) 0); destruct (Nat.eqb_spec n_p 0); try lia;
+  rewrite ?take_all, ?take_prefix, ?take_suffix by assumption; reflexivity.
+Qed.
+
+(* ---- the property, stated for the generated definitions ---- *)
+Definition gen_tests (f : list Z -> Z -> Z -> list Z * list Z) (order : list Z) (k : nat) : list (list Z) :=
+  map (fun i => fst (f order (Z.of_nat k) (Z.of_nat i))) (seq 0 k).
+
+Lemma gen_tests_eq f order k :
+  (forall i, 0 < k -> k <= length order -> i < k ->
+     fst (f order (Z.of_nat k) (Z.of_nat i)) = vals_at order (kfold_test (length order) k i)) ->
+  0 < k -> k <= length order ->
+  gen_tests f order k = map (fun i => vals_at order (kfold_test (length order) k i)) (seq 0 k).
 Proof.
   intros H Hk Hkn. unfold gen_tests. apply map_ext_in. intros i Hin. apply in_seq in Hin. apply H; lia.
 Qed.
 
-(* every group index 0..n-1 is in exactly one test fold of the source's own index arithmetic *)
-Theorem gen_kfold_pattern_partition (n k : nat) : 0 < k -> k <= n ->
-  Permutation (concat (gen_tests Gen_C05.kfold_pattern_idx n k)) (map Z.of_nat (seq 0 n)).
+(* every group (descriptor value of the possibly shuffled order) is in exactly one test fold *)
+Theorem gen_kfold_pattern_partition (order : list Z) (k : nat) : 0 < k -> k <= length order ->
+  Permutation (concat (gen_tests Gen_C05.kfold_pattern_idx order k)) order.
 Proof.
-  intros Hk Hkn. rewrite (gen_tests_eq _ n k); try assumption.
+  intros Hk Hkn. rewrite (gen_tests_eq _ order k); try assumption.
   2:{ intros i A B C. rewrite kfold_pattern_idx_tie by assumption. reflexivity. }
-  rewrite <- (map_map (kfold_test n k) (map Z.of_nat)), <- concat_map.
-  apply Permutation_map, kfold_partition; assumption.
+  apply kfold_values_partition; assumption.
 Qed.
 
-Theorem gen_kfold_rdm_partition (n k : nat) : 0 < k -> k <= n ->
-  Permutation (concat (gen_tests Gen_C05.kfold_rdm_idx n k)) (map Z.of_nat (seq 0 n)) /\
-  Permutation (concat (gen_tests Gen_C05.kfold_both_rdm_idx n k)) (map Z.of_nat (seq 0 n)).
+Theorem gen_kfold_rdm_partition (order : list Z) (k : nat) : 0 < k -> k <= length order ->
+  Permutation (concat (gen_tests Gen_C05.kfold_rdm_idx order k)) order /\
+  Permutation (concat (gen_tests Gen_C05.kfold_both_rdm_idx order k)) order.
 Proof.
   intros Hk Hkn. split.
-  - rewrite (gen_tests_eq _ n k); try assumption.
+  - rewrite (gen_tests_eq _ order k); try assumption.
     2:{ intros i A B C. rewrite kfold_rdm_idx_tie by assumption. reflexivity. }
-    rewrite <- (map_map (kfold_test n k) (map Z.of_nat)), <- concat_map.
-    apply Permutation_map, kfold_partition; assumption.
-  - rewrite (gen_tests_eq _ n k); try assumption.
+    apply kfold_values_partition; assumption.
+  - rewrite (gen_tests_eq _ order k); try assumption.
     2:{ intros i A B C. rewrite kfold_both_rdm_idx_tie by assumption. reflexivity. }
-    rewrite <- (map_map (kfold_test n k) (map Z.of_nat)), <- concat_map.
-    apply Permutation_map, kfold_partition; assumption.
+    apply kfold_values_partition; assumption.
 Qed.
 
 (* fold sizes differ by at most one *)
-Theorem gen_kfold_sizes (n k i : nat) : 0 < k -> k <= n -> i < k ->
-  let sz f := length (fst (f (Z.of_nat n) (Z.of_nat k) (Z.of_nat i))) in
+Theorem gen_kfold_sizes (order : list Z) (k i : nat) : 0 < k -> k <= length order -> i < k ->
+  let n := length order in
+  let sz f := length (fst (f order (Z.of_nat k) (Z.of_nat i))) in
   (sz Gen_C05.kfold_pattern_idx = n / k \/ sz Gen_C05.kfold_pattern_idx = S (n / k)) /\
   (sz Gen_C05.kfold_rdm_idx = n / k \/ sz Gen_C05.kfold_rdm_idx = S (n / k)) /\
   (sz Gen_C05.kfold_both_rdm_idx = n / k \/ sz Gen_C05.kfold_both_rdm_idx = S (n / k)).
 Proof.
   intros Hk Hkn Hi. cbv beta zeta.
   rewrite kfold_pattern_idx_tie, kfold_rdm_idx_tie, kfold_both_rdm_idx_tie by assumption.
-  cbn [fst]. rewrite map_length, kfold_test_size. destruct (i <? n mod k); lia.
+  cbn [fst]. unfold vals_at. rewrite map_length, kfold_test_size. destruct (i <? length order mod k); lia.
 Qed.
 
-(* with more than one fold, no index is on both sides of a fold; the training side is the complement *)
-Theorem gen_kfold_train_test_disjoint (n k i : nat) (j : Z) : 1 < k -> k <= n -> i < k ->
-  (In j (fst (Gen_C05.kfold_pattern_idx (Z.of_nat n) (Z.of_nat k) (Z.of_nat i))) ->
-   ~ In j (snd (Gen_C05.kfold_pattern_idx (Z.of_nat n) (Z.of_nat k) (Z.of_nat i)))) /\
-  (In j (fst (Gen_C05.kfold_rdm_idx (Z.of_nat n) (Z.of_nat k) (Z.of_nat i))) ->
-   ~ In j (snd (Gen_C05.kfold_rdm_idx (Z.of_nat n) (Z.of_nat k) (Z.of_nat i)))) /\
-  (In j (fst (Gen_C05.kfold_both_rdm_idx (Z.of_nat n) (Z.of_nat k) (Z.of_nat i))) ->
-   ~ In j (snd (Gen_C05.kfold_both_rdm_idx (Z.of_nat n) (Z.of_nat k) (Z.of_nat i)))).
+(* with more than one fold and distinct group values, no group is on both sides of a fold *)
+Theorem gen_kfold_train_test_disjoint (order : list Z) (k i : nat) (v : Z) :
+  NoDup order -> 1 < k -> k <= length order -> i < k ->
+  (In v (fst (Gen_C05.kfold_pattern_idx order (Z.of_nat k) (Z.of_nat i))) ->
+   ~ In v (snd (Gen_C05.kfold_pattern_idx order (Z.of_nat k) (Z.of_nat i)))) /\
+  (In v (fst (Gen_C05.kfold_rdm_idx order (Z.of_nat k) (Z.of_nat i))) ->
+   ~ In v (snd (Gen_C05.kfold_rdm_idx order (Z.of_nat k) (Z.of_nat i)))) /\
+  (In v (fst (Gen_C05.kfold_both_rdm_idx order (Z.of_nat k) (Z.of_nat i))) ->
+   ~ In v (snd (Gen_C05.kfold_both_rdm_idx order (Z.of_nat k) (Z.of_nat i)))).
 Proof.
-  intros Hk Hkn Hi.
+  intros Hnd Hk Hkn Hi.
   rewrite kfold_pattern_idx_tie, kfold_rdm_idx_tie, kfold_both_rdm_idx_tie by lia. cbn [fst snd].
-  assert (forall tr, (forall x, In x tr -> ~ In x (kfold_test n k i)) ->
-            In j (map Z.of_nat (kfold_test n k i)) -> ~ In j (map Z.of_nat tr)) as Hgen.
-  { intros tr Htr H1 H2. apply in_map_iff in H1. destruct H1 as [a [Ha Hina]].
-    apply in_map_iff in H2. destruct H2 as [b [Hb Hinb]]. assert (a = b) by lia. subst b.
-    exact (Htr a Hinb Hina). }
-  repeat split; apply Hgen; intros x Hx Hx'.
-  - exact (kfold_train_test_disjoint n k i x Hk Hx' Hx).
-  - unfold kfold_train_strict in Hx. apply filter_In in Hx. destruct Hx as [_ Hx].
-    apply negb_true_iff in Hx. unfold memnat in Hx.
-    assert (existsb (Nat.eqb x) (kfold_test n k i) = true) as E.
-    { apply existsb_exists. exists x. split; [assumption|apply Nat.eqb_refl]. }
-    congruence.
-  - exact (kfold_train_test_disjoint n k i x Hk Hx' Hx).
+  assert (kfold_train_strict (length order) k i = kfold_train (length order) k i) as E.
+  { unfold kfold_train. destruct (Nat.leb_spec k 1); [lia|reflexivity]. }
+  rewrite E. pose proof (kfold_values_disjoint order k i v Hnd Hk ltac:(lia) Hkn Hi) as H. tauto.
+Qed.
+
+(* random splits: with distinct group values the test side (first n of the shuffle) and the training side are
+   disjoint and together are all groups, in both dimensions; the test side has the requested size *)
+Lemma firstn_skipn_disjoint (l : list Z) n v : NoDup l -> In v (firstn n l) -> ~ In v (skipn n l).
+Proof.
+  intros Hnd H1 H2. rewrite <- (firstn_skipn n l) in Hnd.
+  revert Hnd H1 H2. generalize (firstn n l) (skipn n l). intros a b Hnd Ha Hb.
+  induction a as [|x a IH]; [destruct Ha|]. cbn [app] in Hnd. inversion Hnd as [|? ? Hx Hnd']; subst.
+  destruct Ha as [->|Ha]; [apply Hx, in_or_app; right; exact Hb|exact (IH Hnd' Ha)].
+Qed.
+
+Theorem gen_random_split (rorder porder : list Z) (n_r n_p : nat) :
+  0 < n_r <= length rorder -> 0 < n_p <= length porder -> NoDup rorder -> NoDup porder ->
+  let '(te_r, tr_r, te_p, tr_p) := Gen_C05.random_idx rorder porder (Z.of_nat n_r) (Z.of_nat n_p) in
+  te_r ++ tr_r = rorder /\ te_p ++ tr_p = porder /\ length te_r = n_r /\ length te_p = n_p /\
+  (forall v, In v te_r -> ~ In v tr_r) /\ (forall v, In v te_p -> ~ In v tr_p).
+Proof.
+  intros Hr Hp Hnr Hnp.
+  pose proof (random_idx_tie rorder porder n_r n_p ltac:(lia) ltac:(lia)) as T. cbv zeta in T.
+  destruct (Gen_C05.random_idx rorder porder (Z.of_nat n_r) (Z.of_nat n_p)) as [[[a b] c] d].
+  unfold random_fold in T. cbn [te_r tr_r te_p tr_p] in T.
+  destruct (Nat.eqb_spec n_r 0); [lia|]. destruct (Nat.eqb_spec n_p 0); [lia|].
+  inversion T; subst. rewrite !firstn_skipn, !firstn_length.
+  repeat split; try lia; intros v; apply firstn_skipn_disjoint; assumption.
 Qed.
